@@ -305,6 +305,8 @@ PROPS['C08'] = Prop(
            Run('c8_q_history_byvalue_k3', 'q_history.cpp', {'KK': 3, 'RA': 1, 'PAYLOAD': 1}, covers=11, optional_covers=(11, 12), bounds=_C8 + 'C05 histories, K=3, RA=1, payload by value: exactly the pending events own live payloads; clearEvents releases before returning; recycled slots'),
            Run('c8_q_history_byref_k3', 'q_history.cpp', {'KK': 3, 'RA': 0, 'PAYLOAD': 2}, covers=11, optional_covers=(11, 12, 4, 5), bounds=_C8 + 'C05 histories, K=3, payload by const reference'),
            Run('c8_heter_queue_k2', 'heter.cpp', {'OBJ': 2, 'KK': 2}, covers=9, optional_covers=(1, 2, 3, 4, 5, 6, 7, 8), bounds=_C8 + 'C14 heterogeneous queue, K=2: slots recycled between prototypes of different types'),
+           Run('c8_copymove_cl_k3', 'copymove.cpp', {'KK': 3, 'OBJ': 0, 'TRACKED': None}, covers=11, optional_covers=(8, 9, 10), bounds=_C8 + 'C10 histories of CallbackList copies/moves/swaps, K=3: the live callback instances are exactly the listeners of the live objects after every step'),
+           Run('c8_copymove_queue_k2', 'copymove.cpp', {'KK': 2, 'OBJ': 2, 'TRACKED': None}, covers=11, optional_covers=(7, 8, 9, 10), bounds=_C8 + 'C10 histories of EventQueue copies/moves/swaps, K=2'),
            _ft('c8_faults_queue', 1, 'EventQueue (exceptions): a throwing listener/predicate/copy/allocation never leaks or double-destroys a payload', optional_covers=(5,)),
            _ft('c8_faults_cl', 0, 'CallbackList (exceptions): failed copies and additions release every callback copy', optional_covers=(3,)),
            Run('c8_cl_threads_s1_p2', 'cl_threads.cpp', {'TT': 2, 'SS': 1}, preempt=2, covers=4, optional_covers=(2,), mt=True, bounds=_C8 + 'C03 two-thread schedules (S=1, P=2): no node or callback is leaked (shared_ptr cycle) under any interleaving')],
